@@ -104,6 +104,19 @@ def judge(ctx, sc, im):
                 for sid in ids:
                     if (owner, sid) in dec and dec[(owner, sid)][0] != [lx, wid] and not dup_ids:
                         ctx.fail('word.senses()-only-its-own-senses', sc, {'args': args, 'word': [lx, wid], 'sense': [owner, sid]})
+        # word.synsets(), synset.words(), synset.lemmas() are the images of the sense lists, in order
+        nav = im[k]['scope'].get('nav') or {'words': [], 'synsets': []}
+        for wv in nav['words']:
+            if wv['synsets'] != wv['via_senses']:
+                ctx.fail('word.synsets()=image-of-word.senses()-in-order', sc,
+                         {'args': args, 'word': wv['ref'], 'synsets()': wv['synsets'], 'senses().synset()': wv['via_senses']})
+        for yv in nav['synsets']:
+            if yv['words'] != yv['via_senses']:
+                ctx.fail('synset.words()=image-of-synset.senses()-in-order', sc,
+                         {'args': args, 'synset': yv['ref'], 'words()': yv['words'], 'senses().word()': yv['via_senses']})
+            if yv['lemmas'] != yv['lemmas_via_senses']:
+                ctx.fail('synset.lemmas()=lemmas-of-synset.words()-in-order', sc,
+                         {'args': args, 'synset': yv['ref'], 'lemmas()': yv['lemmas'], 'expected': yv['lemmas_via_senses']})
         # translation by ILI
         ilis = ili_of(inst)
         for x in sc_['synsets_x']:
